@@ -98,10 +98,10 @@ pub fn clip_scene(max_dim: u32, max_tris: usize, color_only_ok: bool) -> BoxedSt
                 any::<bool>(),
                 target_kind(color_only_ok),
                 bg_depth(),
-                (0u8..8, 0u8..8),
+                (0u8..8, 0u8..8, 0u8..10, 0u8..10),
             )
         })
-        .prop_filter_map("triangle through the clip-space apex (D-d)", |((bw, bh), (l, r), (t, b), tris, batch, target, bg, (fx, fy))| {
+        .prop_filter_map("triangle through the clip-space apex (D-d)", |((bw, bh), (l, r), (t, b), tris, batch, target, bg, (fx, fy, sw, am))| {
             let mut ts = vec![];
             for (tri, _) in &tris {
                 ts.push(nudge_from_apex(*tri).0?);
@@ -120,6 +120,8 @@ pub fn clip_scene(max_dim: u32, max_tris: usize, color_only_ok: bool) -> BoxedSt
                 shader_mode: 0,
                 shared_verts: false,
                 flip: [fx == 0, fy == 0],
+                swap_axes: sw == 0,
+                attr_mode: match am { 0..=5 => 0, 6..=8 => 1, _ => 2 },
             })
         })
         .boxed()
@@ -159,9 +161,10 @@ pub fn camera_scene(max_dim: u32, max_tris: usize, color_only_ok: bool) -> Boxed
                 proptest::collection::vec(([vert.clone(), vert.clone(), vert], [-1.0f32..=1.0, -1.0f32..=1.0, -1.0f32..=1.0]), 1..=max_tris),
                 target_kind(color_only_ok),
                 bg_depth(),
+                0u8..10,
             )
         })
-        .prop_map(|(((bw, bh), vp, proj), tris, target, bg)| Scene {
+        .prop_map(|(((bw, bh), vp, proj), tris, target, bg, am)| Scene {
             bw,
             bh,
             vp,
@@ -175,6 +178,8 @@ pub fn camera_scene(max_dim: u32, max_tris: usize, color_only_ok: bool) -> Boxed
                 shader_mode: 0,
                 shared_verts: false,
             flip: [false, false],
+            swap_axes: false,
+            attr_mode: match am { 0..=5 => 0, 6..=8 => 1, _ => 2 },
         })
         .boxed()
 }
@@ -355,6 +360,13 @@ pub fn check(sc: &Scene, obs: &mut Obs) -> Check {
     if sc.vp != [0, 0, sc.bw, sc.bh] {
         obs.class("viewport:sub-rectangle");
     }
+    if sc.flip[0] || sc.flip[1] {
+        obs.class("viewport:mirrored");
+    }
+    if sc.swap_axes {
+        obs.class("to_screen:axes-exchanged");
+    }
+    obs.class(["varying:f32", "varying:(f32,f32)-second-slot", "varying:((f32,f32),f32)-nested"][sc.attr_mode.min(2) as usize]);
     if n_in > 0 && refs.iter().any(|r| !r.poly.is_empty() && (r.clipped || r.nonuniform_w)) {
         obs.nontrivial(hash_of(&(&sc.tris, &sc.attrs, sc.vp, sc.bw, sc.bh)));
         if obs.wants_sample() {
